@@ -63,7 +63,10 @@ FormatFails(d, f) ==
 GenExpr(d) == Has(d, "meta") /\ Has(d.meta, "src") /\ d.meta.src = "ExprParens"
 
 ReparseFails(d, f, r) ==
-  (IF ~Valid(r) THEN {V("C01", "reparse")} ELSE {}) \cup
+  (IF ~Valid(r) THEN {V("C01", "reparse")} \cup
+                     \* with require sorting on, an output that does not parse is in particular not a permutation of the statements
+                     (IF SortOn(f) /\ Has(f, "sort") THEN {V("C12", "sorted_output_unparseable")} ELSE {})
+   ELSE {}) \cup
   (IF Valid(r) /\ ~MeaningKept(r) /\ ~SortOn(f)
    THEN {V("C02", "meaning")} \cup (IF GenExpr(d) THEN {V("C05", "grouping")} ELSE {})
    ELSE {}) \cup
